@@ -343,7 +343,7 @@ func (vm *VM) forceBig(b BigVal) *smt.Term {
 		return b.T
 	}
 	if b.Lazy != nil {
-		n, d := vm.ratNormalize(RatVal{b.Lazy.N, b.Lazy.D})
+		n, d := vm.ratNormalize(rv(b.Lazy.N, b.Lazy.D))
 		if b.Lazy.Num {
 			return n
 		}
